@@ -101,6 +101,7 @@ type Exec struct {
 	spawned     []*CallRec
 	sends       []*CallRec
 	ownCheck    bool
+	nameCount   map[string]int
 	borrowed    map[*Term]string // array ids / refs owned by the caller
 }
 
@@ -118,14 +119,42 @@ func (ex *Exec) assume(st *State, fact *Term) {
 	ex.assumptions = append(ex.assumptions, Implies(st.PC(), fact))
 }
 
+// splitGoal breaks a goal into conjuncts (through implications) so that each query stays small.
+func splitGoal(g *Term) []*Term {
+	switch g.Op {
+	case "and":
+		var out []*Term
+		for _, a := range g.Args {
+			out = append(out, splitGoal(a)...)
+		}
+		return out
+	case "=>":
+		var out []*Term
+		for _, c := range splitGoal(g.Args[1]) {
+			out = append(out, Implies(g.Args[0], c))
+		}
+		return out
+	}
+	return []*Term{g}
+}
+
 func (ex *Exec) oblige(fr *Frame, st *State, kind, name string, pos token.Pos, src string, goal *Term) {
 	if st.infeasible() {
 		return
 	}
-	g := goal
-	if g.Op == "true" {
-		// trivially discharged at construction: still counted (discharged syntactically)
+	if kind != "safety" {
+		if parts := splitGoal(goal); len(parts) > 1 {
+			for i, p := range parts {
+				ex.oblige1(fr, st, kind, fmt.Sprintf("%s/%d", name, i+1), pos, src, p)
+			}
+			return
+		}
 	}
+	ex.oblige1(fr, st, kind, name, pos, src, goal)
+}
+
+func (ex *Exec) oblige1(fr *Frame, st *State, kind, name string, pos token.Pos, src string, goal *Term) {
+	g := goal
 	full := ex.fnName(ex.top) + "#" + name
 	if fr != nil && fr.label != "" {
 		full = ex.fnName(ex.top) + "#" + fr.label + name
@@ -505,7 +534,11 @@ func (ex *Exec) lookupName(fr *Frame, name string, b *ssa.BasicBlock, st *State)
 		}
 		v, ok := fr.regs[r.val]
 		if !ok {
-			if _, isParam := r.val.(*ssa.Parameter); !isParam {
+			switch r.val.(type) {
+			case *ssa.Const, *ssa.Function, *ssa.Global:
+				v = ex.val(fr, r.val)
+			case *ssa.Parameter:
+			default:
 				continue
 			}
 		}
@@ -618,6 +651,33 @@ func (ex *Exec) execLoop(fr *Frame, loops map[*ssa.BasicBlock]*loopInfo, li *loo
 			env := ex.envAt(fr, st, h)
 			ex.assume(st, ex.evalBool(env, inv.E))
 		}
+		// implicit frame invariants for wholly havoced reference-indexed state: objects that existed
+		// when the loop was entered are unchanged (assumed at the head, proved at every latch)
+		frameInv := func(s *State) []struct {
+			key string
+			t   *Term
+		} {
+			var out []struct {
+				key string
+				t   *Term
+			}
+			for _, k := range keys {
+				srt := s.sorts[k]
+				if !havoc[k].whole || srt.K != KArray || srt.A != IntS || k == allocKey {
+					continue
+				}
+				r := BoundVar("fr", IntS)
+				body := Implies(IntLe(r, ex.entry.alloc()), Eq(Select(s.get(k, srt), r), Select(entrySt.get(k, srt), r)))
+				out = append(out, struct {
+					key string
+					t   *Term
+				}{k, Forall([]*Term{r}, body)})
+			}
+			return out
+		}
+		for _, fi := range frameInv(st) {
+			ex.assume(st, fi.t)
+		}
 		headSt := st.clone()
 		var measure Val
 		if lc.Decreases != nil {
@@ -631,6 +691,7 @@ func (ex *Exec) execLoop(fr *Frame, loops map[*ssa.BasicBlock]*loopInfo, li *loo
 			if final == initial {
 				return
 			}
+			initial = entrySt.get(k, srt) // stores are collected down to the pre-loop value
 			cur := havoc[k]
 			if cur != nil && cur.whole {
 				return
@@ -695,6 +756,9 @@ func (ex *Exec) execLoop(fr *Frame, loops map[*ssa.BasicBlock]*loopInfo, li *loo
 				}
 				g := ex.evalBool(env, inv.E)
 				ex.oblige(fr, e.st, "loop", lname+".preserve:"+inv.Label, pos, inv.Src, g)
+			}
+			for _, fi := range frameInv(e.st) {
+				ex.oblige(fr, e.st, "loop", lname+".preserve:frame:"+fi.key, pos, "objects that existed at function entry are not modified by the loop", fi.t)
 			}
 			if lc.Decreases != nil {
 				env := ex.envAt(fr, e.st, h)
